@@ -53,7 +53,7 @@ def qmul(p, q):
 
 
 def one_run(args):
-    ti, u, axis, deg, seed = args
+    ti, u, axis, deg, seed, silent = args
     cfg, extra, gref, href, typ, budget, tol, route = TABLE[ti]
     cname = name_of(cfg) + ("|" + "|".join("%s=%s" % kv for kv in sorted(extra.items()) if kv[0] in ("gain",)) if extra else "")
     t = Tally()
@@ -62,6 +62,8 @@ def one_run(args):
     n = int(budget * 1.2) + 2 * STRIDE
     rng = core.rng(seed, "c05", ti, u, axis, deg)
     gyr = rng.normal(size=(n, 3)) * 1e-4
+    if silent is not None:
+        gyr[:, silent] = 0.0      # a noise realisation with one exactly silent axis
     Rm = R if typ == "A" else R.T
     acc = np.tile(Rm @ np.array(gref, dtype=float) * 9.81, (n, 1))
     mag = np.tile(Rm @ np.array(href, dtype=float) * 48.0, (n, 1)) if href is not None else None
@@ -70,7 +72,7 @@ def one_run(args):
     ax = np.array(axis, dtype=float) / np.linalg.norm(axis)
     q0 = qmul(truth, np.r_[c, s * ax])
     q0 /= np.linalg.norm(q0)
-    case = {"cfg": cname, "truth": u, "axis": axis, "initial_error_deg": deg, "route": route}
+    case = {"cfg": cname, "truth": u, "axis": axis, "initial_error_deg": deg, "route": route, "silent_gyro_axis": silent}
     t.calls += 1
     t.keys.add((cname, u, axis, deg))
     try:
@@ -136,7 +138,7 @@ def one_run(args):
 def run(chk):
     quick = chk.tier == "quick"
     chk.rule = ("runs = %d recursive filter configurations (IMU/MARG, NED/ENU, default and non-default gain) x exact true attitudes x error "
-                "axes x initial errors {0, 30, 90, 150, 175} degrees, gyroscope noise 1e-4 rad/s seeded; observation every 50 samples; "
+                "axes x initial errors {0, 30, 90, 150, 175} degrees, gyroscope noise 1e-4 rad/s seeded (every second truth with one exactly silent axis); observation every 50 samples; "
                 "distinct = distinct (configuration, truth, axis, initial error); trivial (not counted) = 0-degree starts" % len(TABLE))
     chk.assume("motionless data are exact images of each filter's references (SensorWorld convention table); budget = 3 x the settle time "
                "and tol >= 30 x the plateau measured on the unchanged tree (table in the source); UKF's loss of positive definiteness from large initial errors is a known finding")
@@ -154,7 +156,8 @@ def run(chk):
                 for deg in degs:
                     if quick and TABLE[ti][5] > 25000 and (ui > 0 or deg == 90):
                         continue      # the slowest configurations: one truth, 0 and 175 degrees in the quick tier
-                    jobs.append((ti, u, AXES[(ai + ui) % len(AXES)] if quick else ax, deg, chk.seed))
+                    jobs.append((ti, u, AXES[(ai + ui) % len(AXES)] if quick else ax, deg, chk.seed,
+                                 None if ui % 2 == 0 else (ti + ui + ai) % 3))
     jobs.sort(key=lambda j: -TABLE[j[0]][5])
     import multiprocessing as mp
     with mp.get_context("fork").Pool(16) as pool:
